@@ -75,11 +75,12 @@ theorem decref_tie : Generated.C14.fn_DecRef = shape [.drLoad true, .drCas 0 tru
 
 /-- the callers are the repaired ones the model describes: the conditional pin is `pinIfActive`
 (= the model's `peek`), an unpinned segment is handed out behind a no-op DecRef, `segments(true)`
-unwinds on failure, and retention / expiry scans take no pin and issue no DecRef. -/
+unwinds on failure (a `DecRef` follows its `incRef`), and retention / expiry scans take no pin and
+issue no DecRef. -/
 theorem callers_tie :
     Generated.C14.fn_pinIfActive = shape [.pkLoad, .pkCas 0] ∧
     Generated.C14.ctl_selectSegments = ["incRef", "DecRef", "la:=now", "pinIfActive", "unpinned"] ∧
-    Generated.C14.ctl_segments = ["incRef", "DecRef", "pinIfActive"] ∧
+    Generated.C14.ctl_segments = ["incRef", "DecRef", "cur:=rc", "cur<=0", "cas+1"] ∧
     Generated.C14.ctl_remove = ["copySegments", "delete", "removeSeg"] ∧
     Generated.C14.ctl_getExpiredSegmentsTimeRange = ["copySegments"] ∧
     Generated.C14.ctl_deleteExpiredSegments = ["copySegments", "delete", "removeSeg"] ∧
